@@ -154,9 +154,14 @@ Definition infix_keys (tbl : table) (kw_and kw_or : string) : list string :=
   let all := ops ++ ["("; ")"; ","] in
   sort_desc (filter (fun n => negb (String.eqb n kw_and || String.eqb n kw_or)) all).
 
+Fixpoint is_prefix (k s : string) {struct k} : bool :=
+  match k with
+  | EmptyString => true
+  | String a k' => match s with EmptyString => false | String b s' => Ascii.eqb a b && is_prefix k' s' end
+  end.
 (* the first alternative of the regex that matches at the current position *)
 Definition first_match (keys : list string) (s : string) : option string :=
-  find (fun k => negb (String.eqb k "") && String.prefix k s) keys.
+  find (fun k => negb (String.eqb k "") && is_prefix k s) keys.
 
 Definition emit (cur : string) (rest : list string) : list string :=
   if String.eqb cur "" then rest else cur :: rest.
